@@ -125,14 +125,14 @@ func f20AsciiLower(s string) string {
 
 func f20HasAny(s, set string) bool { return strings.ContainsAny(s, set) }
 
-// f20ExpectedFmt: every piece valid (literals without '{', tokens known in any letter
+// f20ExpectedFmt: every piece valid (brace-free literals, tokens known in any letter
 // case) => the text Fmt must return, and the literals alone.
 func f20ExpectedFmt(ps []f20Fpiece) (exp, lits string, ok bool) {
 	var e, l strings.Builder
 	for _, p := range ps {
 		switch p.kind {
 		case 'L':
-			if strings.Contains(p.a, "{") {
+			if strings.ContainsAny(p.a, "{}") {
 				return "", "", false
 			}
 			e.WriteString(p.a)
@@ -240,11 +240,11 @@ func f20RefStrip(s string) string {
 
 // ---- reference for TrimFmt's order (in)dependence -------------------------------------
 
-func f20TokenAt(s string, i int) int {
+func f20TokenAt(names []string, s string, i int) int {
 	if s[i] != '{' {
 		return 0
 	}
-	for _, n := range docAllNames {
+	for _, n := range names {
 		if strings.HasPrefix(s[i+1:], n) && len(s) > i+1+len(n) && s[i+1+len(n)] == '}' {
 			return len(n) + 2
 		}
@@ -253,10 +253,10 @@ func f20TokenAt(s string, i int) int {
 }
 
 // f20StripTokens deletes every {name} occurrence present in s in one pass.
-func f20StripTokens(s string) string {
+func f20StripTokens(names []string, s string) string {
 	var sb strings.Builder
 	for i := 0; i < len(s); {
-		if n := f20TokenAt(s, i); n > 0 {
+		if n := f20TokenAt(names, s, i); n > 0 {
 			i += n
 			continue
 		}
@@ -266,18 +266,25 @@ func f20StripTokens(s string) string {
 	return sb.String()
 }
 
-func f20HasToken(s string) bool {
+func f20HasToken(names []string, s string) bool {
 	for i := 0; i < len(s); i++ {
-		if f20TokenAt(s, i) > 0 {
+		if f20TokenAt(names, s, i) > 0 {
 			return true
 		}
 	}
 	return false
 }
 
-// f20TrimStable: deleting all tokens present leaves no token, so no deletion order can
-// create one (mirrors Model/Format.v trim_stable).
-func f20TrimStable(s string) bool { return !f20HasToken(f20StripTokens(s)) }
+// f20TrimStable: in each of TrimFmt's two phases (colours, then codes) deleting all
+// tokens present leaves no token of that phase, so no deletion order can create one
+// (mirrors Model/Format.v trim_stable).
+func f20TrimStable(s string) bool {
+	s1 := f20StripTokens(docColorNames, s)
+	if f20HasToken(docColorNames, s1) {
+		return false
+	}
+	return !f20HasToken(docCodeNames, f20StripTokens(docCodeNames, s1))
+}
 
 // ---- generators -----------------------------------------------------------------------
 
@@ -539,14 +546,14 @@ func f20RunFmt(c Case) Result {
 	return res
 }
 
-// f20ExpectedTrim: literals without '{', token bodies without braces => the text TrimFmt
+// f20ExpectedTrim: brace-free literals, token bodies without braces => the text TrimFmt
 // must return (exactly the lower-case {name} tokens removed).
 func f20ExpectedTrim(ps []f20Fpiece) (string, bool) {
 	var e strings.Builder
 	for _, p := range ps {
 		switch p.kind {
 		case 'L':
-			if strings.Contains(p.a, "{") {
+			if strings.ContainsAny(p.a, "{}") {
 				return "", false
 			}
 		default:
@@ -763,6 +770,7 @@ func init() {
 			out = append(out,
 				Case{"Pred,blue"}, Case{"Tred", "Pred,blue", "TRED", "Tb", "TB", "Tfoo", "L}"},
 				Case{"L{b{i}}"}, Case{"L{{b}i}"}, Case{"L{b{i}o{i}ld}"}, Case{"L{red"}, Case{"L{}"}, Case{},
+				Case{"L{re{c}d}test{c}"}, Case{"L{r{blue}ed}"}, Case{"L{b{red}old}"}, Case{"L{c{red}}"}, // girc's own "inside" test; colour inside colour; colour inside code
 			)
 			return out
 		},
